@@ -119,7 +119,7 @@ def plan_for(pid, tier):
         common["pre"] = compcheck.corpus_stage
     if pid == "C11":
         import compcheck
-        common["pre"] = compcheck.ctxpool_stage
+        common["pre"] = compcheck.c11_pre
         common.update(attr_all=True, walks=60 if q else 600)
     if pid == "C07":
         import compcheck
